@@ -90,10 +90,17 @@ def indexConsistentB (nodes : List Node) (idx : Index) : Bool :=
   flat.all (fun q => want.contains q) && want.all (fun q => flat.contains q) &&
     decide ((idx.flatMap (·.2)).Nodup)
 
-/-- type arguments of `search`: a class (already turned into its type string by `build_xtype`) or
-a string -/
+/-- every index entry lists its nodes in document order and the entries of one type follow each
+other in document order (true of a freshly loaded model: the index is filled by a tree walk,
+fragment after fragment) -/
+def indexSortedB (idx : Index) (xt : Str) : Bool :=
+  let l := (idx.filter (fun p => typeOk [xt] p.1)).flatMap (·.2)
+  (l.zip l.tail).all (fun p => p.1 < p.2)
+
+/-- type arguments of `search`: a class (as the types it is registered for — only a class
+registered for none is turned into the one type string `build_xtype` derives) or a string -/
 inductive TypeArg
-  | cls (xtype : Str)
+  | cls (xtypes : List Str)
   | str (s : Str)
 deriving DecidableEq, Repr
 
@@ -106,7 +113,7 @@ def endsWith (s suf : Str) : Bool := suf.reverse.isPrefixOf s.reverse
 the loop*; an unknown short name raises `ValueError` -/
 def resolve (handlers : List Str) : List TypeArg → List Str → Except Unit (List Str)
   | [], acc => .ok acc
-  | .cls x :: rest, acc => resolve handlers rest (acc ++ [x])
+  | .cls xs :: rest, acc => resolve handlers rest (acc ++ xs)
   | .str s :: rest, acc =>
     if s.contains ':' then resolve handlers rest (acc ++ [s])
     else if genericNames.contains s then .ok []
